@@ -38,8 +38,9 @@ def workload(g, tier):
             for spell in ("bare", "o2o"):
                 for b in bases:
                     it = b.copy()
-                    if inj(it, g, pos, spell) is not None:
-                        wl.append(("single_fault", it.render()))
+                    f = inj(it, g, pos, spell)
+                    if f is not None:
+                        wl.append((f"single_fault:{f.cls}", it.render()))
     for _ in range(nvalid // 3):
         wl.append(("repeat", g.pick([c14.gen_struct, c14.gen_enum, c14.gen_trait_level])(g)[0].render()))
     return wl
@@ -51,6 +52,7 @@ def run(tier):
                "blocks; monitor = catch_unwind + process-death detection on both back-ends. distinct_nontrivial = distinct (status, item kind, normalised diagnostic set "
                "or panic signature) outcomes observed.")
     g = xgen.G(common.rng_for("C16", tier))
+    g.allow_unknown_p = 0.06
     wl = workload(g, tier)
     srcs = [w[1] for w in wl]
     hist = {}
@@ -64,12 +66,14 @@ def run(tier):
             if st == "err":
                 key = [st, kind, sorted({re.sub(r"'[^']*'|[0-9]+", "_", m)[:60] for m in o["msgs"]})[:6]]
             elif st == "ok":
-                key = [st, kind, cls, o["tokens"].count("impl")]
+                key = [st, kind, cls.split(":")[0], o["tokens"].count("impl")]
             else:
                 key = [st, kind, psig(o) if st == "panic" else o.get("msg", "")[:40]]
             ck.cell(key)
             if st == "panic":
-                ck.violation(psig(o), dict(input=src, backend=backend, workload=cls, panic=common.brief(o)))
+                # an otherwise valid input with one documented misuse must end in that misuse's diagnostic: a panic there is identified by
+                # the misuse class as well as by the site (a new route to a site already listed is a different finding)
+                ck.violation(psig(o) + (f"|{cls}" if cls.startswith("single_fault:") else ""), dict(input=src, backend=backend, workload=cls, panic=common.brief(o)))
             elif st == "abort":
                 ck.violation(f"abort|rc={o.get('rc')}", dict(input=src, backend=backend, workload=cls, outcome=o))
             elif st not in ("ok", "err", "input_unparsable"):
@@ -84,7 +88,7 @@ def run(tier):
             fuzzrun.campaign(ck)
         except ImportError:
             ck.note_inconclusive("fuzz campaign module not present")
-        miri_slice(ck, [w[1] for w in wl if w[0] in ("valid", "faulty", "single_fault", "finding_witness")][::max(1, len(wl) // 2000)][:96])
+        miri_slice(ck, [w[1] for w in wl if (w[0] in ("valid", "faulty", "finding_witness") or w[0].startswith("single_fault"))][::max(1, len(wl) // 2000)][:96])
     if tier == "thorough":
         from vlib import cov
         cov.report(ck, "C16", srcs)
